@@ -268,6 +268,17 @@ class Oracle:
             if not set(must) <= set(got) or not set(got) <= may:
                 return "iterator over %s via %s/m%s (match %s, count %s) yielded %s, present keys %s" % (
                     a[2], a[0], a[1], a[3] if len(a) > 3 else "*", a[4] if len(a) > 4 else "default", sorted(got)[:12], must[:12])
+            tok = reply.split()[0] if reply else ""
+            if "reqs=" in tok:
+                # every owner of a partition is walked once: at most (entries + tables + 1) requests per owner and partition
+                reqs = int(tok.split("reqs=")[1])
+                nk = len([1 for (d, k) in self.ref if d == a[2]])
+                bound = 4 * nk * max(self.n, 1) + 6 * int(self.cfg.get("parts", 7)) * max(self.n, 1) + 50
+                self.hit("iterator_requests_bounded")
+                if reqs > bound:
+                    return ("iterator over %s via %s/m%s needed %d scan requests for %d keys on %d members, %s partitions (at most %d when every "
+                            "owner of a partition is walked once): owners that were finished are asked again" % (
+                                a[2], a[0], a[1], reqs, nk, self.n, self.cfg.get("parts", "7"), bound))
             self.hit("iterator_checked")
             if pat is not None:
                 self.hit("iterator_match" if must else "iterator_match_nothing")
